@@ -79,6 +79,35 @@ def random_cases(rng, n, heavy=False, multi=0.15):
     return out
 
 
+def eci_boundary_cases(rng, tier, versions=None):
+    """Byte content with eci=True in every spelling class of the encoding name (canonical, other letter case, alias,
+    default and non-default codec), at and just below the capacity of the version - requested and automatic. The 12
+    bits of the ECI header decide whether the content fits, and they must be counted for exactly those spellings for
+    which they are written."""
+    from vmon import gen, oracle
+    out = []
+    versions = versions or ([1, 2, 9, 10] if tier == 'quick' else [1, 2, 3, 5, 9, 10, 26, 27, 40])
+    spellings = ['utf-8', 'UTF-8', 'utf8', 'iso-8859-1', 'ISO-8859-1', 'Iso-8859-1', 'latin1', 'Latin-1', 'LATIN1', 'L1',
+                 'cp1252', 'CP1252', 'shift_jis', 'Shift_JIS', 'sjis', 'ascii', 'US-ASCII', None]
+    for v in versions:
+        for lv in oracle.LEVELS:
+            n = gen.max_chars(v, lv, 'byte')
+            if not n:
+                continue
+            for enc in (spellings if tier == 'thorough' else rng.sample(spellings, 9)):
+                for k in (n, n - 1, n - 2, n - 3):
+                    if k < 1:
+                        continue
+                    content = gen.content_for_bits('byte', k)
+                    kw = {'eci': True, 'error': lv, 'boost_error': False, 'micro': False}
+                    if enc:
+                        kw['encoding'] = enc
+                    out.append(mk(content, tag='eci-boundary', **dict(kw, version=v)))
+                    if rng.random() < 0.5:
+                        out.append(mk(content, tag='eci-boundary', **kw))
+    return out
+
+
 def suite_under_monitors(props, rec):
     """Runs the repository's test-suite with the encode monitor installed and merges what the monitor saw
     into `rec` (used by main_phase of the encode-side checks, thorough tier)."""
